@@ -61,8 +61,11 @@ func (p *Prog) ownedBy(fn *ssa.Function, allowed func(name string) bool) (string
 		if allowed(fnName(top)) {
 			return fnName(top), true
 		}
-		if depth > 4 || seen[top] {
+		if depth > 5 {
 			return "", false
+		}
+		if seen[top] {
+			return "", true // mutual recursion inside the helper cluster: decided by the other callers
 		}
 		seen[top] = true
 		if top.Object() == nil || top.Object().Exported() {
@@ -78,14 +81,19 @@ func (p *Prog) ownedBy(fn *ssa.Function, allowed func(name string) bool) (string
 			if e.Caller.Func == nil || e.Site == nil || e.Site.Common().StaticCallee() != top {
 				continue
 			}
+			if TopLevel(e.Caller.Func) == top {
+				continue // self recursion does not change who owns the code
+			}
 			cnt++
 			o, ok := rec(e.Caller.Func, depth+1)
 			if !ok {
 				return "", false
 			}
-			owner = o
+			if o != "" {
+				owner = o
+			}
 		}
-		if cnt == 0 {
+		if cnt == 0 || owner == "" {
 			return "", false
 		}
 		return owner, true
